@@ -225,6 +225,42 @@ pub fn run(tier: Tier, shard: Shard, stats: &mut Stats) {
             }
         }
     }
+    // {spinner} on a rate-limited target: ticks whose frame is skipped still advance the spinner
+    for hz in [1u8, 20, 255] {
+        for n in [1u64, 5, 19, 20, 21, 35, 47] {
+            case += 1;
+            if !shard.owns(case) {
+                continue;
+            }
+            stats.evaluations += 1;
+            stats.transitions += n;
+            clock::reset();
+            let hist = vec!["template [{spinner}]".to_string(), format!("term_like_with_hz(.., {hz}), {n} ticks at the same instant, then force_draw")];
+            let r = catch(|| {
+                let style = ProgressStyle::with_template("[{spinner}]").unwrap().tick_chars(TICKS);
+                let pb = indicatif::ProgressBar::with_draw_target(Some(10), indicatif::ProgressDrawTarget::term_like_with_hz(Box::new(catcher.clone()), hz)).with_style(style);
+                for _ in 0..n {
+                    pb.tick();
+                }
+                let lines = frame_lines(&catcher, &pb);
+                let exp = expected("spinner", &pb, n, false);
+                pb.abandon();
+                (lines, exp)
+            });
+            match r {
+                Err(p) => stats.violation(Violation { class: format!("panic: {}", panic_class(&p)), config: "spinner".into(), history: hist, detail: p }),
+                Ok((lines, exp)) => {
+                    let line = lines.first().cloned().unwrap_or_default();
+                    let got = line.strip_prefix('[').and_then(|l| l.strip_suffix(']')).unwrap_or(&line).to_string();
+                    if !exp.clone().unwrap_or_default().contains(&got) {
+                        stats.violation(Violation { class: "value: {spinner} lags the tick count when frames are skipped by the rate limiter".into(), config: "spinner".into(), history: hist, detail: format!("rendered {:?}, expected one of {:?}", got, exp) });
+                    } else {
+                        stats.state_outcome(hash_of(&("spinner-hz", hz, n)), true);
+                    }
+                }
+            }
+        }
+    }
     // custom keys: receive the current state when written, ticked and reset together with the bar;
     // every frame painted along the way shows the state and the elapsed time of that instant
     let nops = 11u8;
